@@ -129,12 +129,14 @@ Proof.
   replace (S (length a) - length a)%nat with 1%nat by lia. reflexivity.
 Qed.
 
-Lemma torn_log_shape : forall t, torn_ok t -> Forall name_ok (t_items t) ->
-  exists P, nolf P /\
-    firstn (t_k t) (log_of (t_items t)) = log_of (firstn (t_n t) (t_items t)) ++ P.
+Lemma torn_log_shape_gen : forall (items : list mitem) (n k : nat),
+  (n <= length items)%nat ->
+  (length (log_of (firstn n items)) <= k)%nat ->
+  (n < length items -> k < length (log_of (firstn (S n) items)))%nat ->
+  Forall name_ok items ->
+  exists P, nolf P /\ firstn k (log_of items) = log_of (firstn n items) ++ P.
 Proof.
-  intros [items ents n m k j]. unfold torn_ok. cbn [t_items t_ents t_n t_m t_k t_j].
-  intros (H1 & _ & H3 & H4 & _) Hn.
+  intros items n k H1 H3 H4 Hn.
   assert (E : items = firstn n items ++ skipn n items) by (symmetry; apply firstn_skipn).
   assert (LA : length (firstn n items) = n) by (apply firstn_length_le; exact H1).
   revert H3 E LA. generalize (firstn n items) (skipn n items). intros A B H3 E LA. subst items n.
@@ -148,6 +150,13 @@ Proof.
     change (log_of []) with (@nil N) in H4. cbn [length] in H4. lia.
 Qed.
 
+Lemma torn_log_shape : forall t, torn_ok t -> Forall name_ok (t_items t) ->
+  exists P, nolf P /\
+    firstn (t_k t) (log_of (t_items t)) = log_of (firstn (t_n t) (t_items t)) ++ P.
+Proof.
+  intros t (H1 & _ & H3 & H4 & _) Hn. apply torn_log_shape_gen; assumption.
+Qed.
+
 (** * A file as the search sees it: its index finds what the entries say, and from the offset of
       an entry it reads the lines of the items behind it, followed by the lines [T] *)
 
@@ -158,9 +167,24 @@ Definition repr (mf : mfile) (a : afile) (T : list bytes) : Prop :=
   (forall pre post, a_items a = pre ++ post ->
      lines_from mf (N.of_nat (length (log_of pre))) = map to_line post ++ T).
 
+(** the last file may also hold one more index entry than [a] has (a dangling entry, written before
+    the first line of its second): when no entry of [a] is at or after the begin second the index
+    may still give an offset, from which only the lines [T] are read *)
+Definition repr_last (mf : mfile) (a : afile) (T : list bytes) : Prop :=
+  (forall bsec,
+     find_offset (S (length (f_idx mf))) (f_idx mf) bsec 0 =
+       match find (fun e : N * N => bsec <=? fst e) (a_ents a) with
+       | Some e => OffOk (snd e) | None => OffErr end
+     \/
+     (find (fun e : N * N => bsec <=? fst e) (a_ents a) = None /\
+      exists off, find_offset (S (length (f_idx mf))) (f_idx mf) bsec 0 = OffOk off /\
+                  lines_from mf off = T)) /\
+  (forall pre post, a_items a = pre ++ post ->
+     lines_from mf (N.of_nat (length (log_of pre))) = map to_line post ++ T).
+
 Inductive dir_repr : list mfile -> list afile -> list bytes -> Prop :=
 | dr_nil : dir_repr [] [] []
-| dr_one : forall mf a T, repr mf a T -> dir_repr [mf] [a] T
+| dr_one : forall mf a T, repr_last mf a T -> dir_repr [mf] [a] T
 | dr_cons : forall mf a ms fs T, repr mf a [] -> dir_repr ms fs T -> dir_repr (mf :: ms) (a :: fs) T.
 
 Lemma lines_log_tail : forall post P, Forall name_ok post -> nolf P ->
@@ -203,6 +227,13 @@ Qed.
 Lemma repr_lines_zero : forall mf a T, repr mf a T ->
   lines_from mf 0 = map to_line (a_items a) ++ T.
 Proof. intros mf a T [_ H]. exact (H [] (a_items a) eq_refl). Qed.
+
+Lemma repr_last_lines_zero : forall mf a T, repr_last mf a T ->
+  lines_from mf 0 = map to_line (a_items a) ++ T.
+Proof. intros mf a T [_ H]. exact (H [] (a_items a) eq_refl). Qed.
+
+Lemma repr_last_of_repr : forall mf a T, repr mf a T -> repr_last mf a T.
+Proof. intros mf a T [H1 H2]. split; [|exact H2]. intros bsec. left. apply H1. Qed.
 
 (** * Reading by time with trailing lines *)
 
@@ -259,7 +290,7 @@ Proof.
   intros ms fs T D. induction D as [|mf a T R|mf a ms fs T R D IH]; intros bsec esec res H.
   - exists []. split; [cbn [length]; lia | reflexivity].
   - cbn [flat_map] in *. rewrite app_nil_r in *.
-    cbn [read_files_by_time]. rewrite (repr_lines_zero mf a T R).
+    cbn [read_files_by_time]. rewrite (repr_last_lines_zero mf a T R).
     destruct (read_items_tail bsec esec res (a_items a) T H) as (extra & c & HL & E).
     rewrite E. destruct (forallb _ (a_items a)).
     + exists extra. split; [exact HL|]. destruct c; [rewrite app_nil_r|]; reflexivity.
@@ -312,7 +343,13 @@ Lemma search_time_tail : forall ms fs T, dir_repr ms fs T ->
 Proof.
   intros ms fs T D. induction D as [|mf a T R|mf a ms fs T R D IH]; intros bsec esec res G.
   - exists []. split; [cbn [length]; lia | reflexivity].
-  - cbn [search_from from_first_entry]. rewrite (proj1 R bsec).
+  - cbn [search_from from_first_entry].
+    destruct (proj1 R bsec) as [E0|(E0 & off & E1 & E2)]; cycle 1.
+    { rewrite E0, E1. unfold rdf. rewrite E2.
+      destruct (read_by_time_any T bsec esec res []) as (extra & c & HL & E3).
+      rewrite E3. cbn [List.rev List.app]. exists extra. split; [exact HL|].
+      destruct c; [cbn [read_files_by_time]; rewrite app_nil_r|]; reflexivity. }
+    rewrite E0.
     destruct (find (fun e : N * N => bsec <=? fst e) (a_ents a)) as [e|] eqn:E.
     + destruct (entry_found a [] e bsec G E) as (pre & post & Hit & Hoff & HA & HB).
       rewrite HA. cbn [flat_map] in *. rewrite app_nil_r in *.
@@ -460,7 +497,7 @@ Proof.
     destruct (max <=? N.of_nat (length pre)) eqn:C.
     + exists 0%nat, []. cbn [firstn length]. rewrite !app_nil_r.
       split; [lia|]. split; [lia|]. split; [exact Hinv|]. split; [right; lia | reflexivity].
-    + rewrite (repr_lines_zero mf a T R).
+    + rewrite (repr_last_lines_zero mf a T R).
       destruct (read_max_items max T (a_items a) Hw pre [] (latest_sec (map norm pre)))
         as (n & Hn & Hi & Hd).
       { rewrite app_nil_r. exact Hinv. }
@@ -547,13 +584,19 @@ Lemma search_max_tail : forall ms fs T, dir_repr ms fs T ->
   forall bsec max, gd fs ->
   exists extra, (length extra <= length T)%nat /\
     match from_first_entry fs bsec with
-    | None => search_from ms bsec (rdm max) = [] /\ extra = []
+    | None => search_from ms bsec (rdm max) = extra
     | Some items => exists out, max_ok items max out /\ search_from ms bsec (rdm max) = out ++ extra
     end.
 Proof.
   intros ms fs T D. induction D as [|mf a T R|mf a ms fs T R D IH]; intros bsec max G.
-  - exists []. split; [cbn [length]; lia|]. cbn [from_first_entry search_from]. split; reflexivity.
-  - cbn [search_from from_first_entry]. rewrite (proj1 R bsec).
+  - exists []. split; [cbn [length]; lia|]. cbn [from_first_entry search_from]. reflexivity.
+  - cbn [search_from from_first_entry].
+    destruct (proj1 R bsec) as [E0|(E0 & off & E1 & E2)]; cycle 1.
+    { rewrite E0, E1. unfold rdm. rewrite E2.
+      destruct (read_max_any T max 0 0 []) as (extra & c & HL & E3).
+      rewrite E3. cbn [List.rev List.app]. exists extra. split; [exact HL|].
+      destruct c; reflexivity. }
+    rewrite E0.
     destruct (find (fun e : N * N => bsec <=? fst e) (a_ents a)) as [e|] eqn:E.
     + destruct (entry_found a [] e bsec G E) as (pre & post & Hit & Hoff & HA & HB).
       rewrite HA. cbn [flat_map] in *. rewrite app_nil_r in *.
@@ -572,7 +615,7 @@ Proof.
         exists (map norm post). split; [|destruct c; reflexivity].
         subst n. rewrite firstn_all in Hi. rewrite <- (firstn_all post) at 2.
         apply max_ok_intro; [lia | rewrite firstn_all; exact Hi | left; reflexivity].
-    + exists []. split; [cbn [length]; lia|]. cbn [search_from]. split; reflexivity.
+    + exists []. split; [cbn [length]; lia|]. cbn [search_from]. reflexivity.
   - pose proof (gd_tail a fs G) as Gt.
     cbn [search_from from_first_entry]. rewrite (proj1 R bsec).
     destruct (find (fun e : N * N => bsec <=? fst e) (a_ents a)) as [e|] eqn:E.
@@ -623,7 +666,7 @@ Qed.
 Lemma dir_repr_snoc : forall fs lastf c T,
   Forall (fun f => Forall name_ok (a_items f) /\
                    Forall (fun e => fst e < U64 /\ snd e < U64) (a_ents f)) fs ->
-  repr lastf c T -> dir_repr (map conc fs ++ [lastf]) (fs ++ [c]) T.
+  repr_last lastf c T -> dir_repr (map conc fs ++ [lastf]) (fs ++ [c]) T.
 Proof.
   intros fs lastf c T H R. induction H as [|f fs [Hn Hu] _ IH].
   - apply dr_one. exact R.
@@ -675,7 +718,7 @@ Proof.
   unfold find_max_lines. rewrite (proj1 G). fold (rdm max).
   destruct (from_first_entry fs (begin_ms / 1000)) as [items|].
   - destruct H as (out & Hm & E). rewrite E, app_nil_r. exact Hm.
-  - exact (proj1 H).
+  - exact H.
 Qed.
 
 Lemma Forall_firstn_ : forall {A} (P : A -> Prop) n l, Forall P l -> Forall P (firstn n l).
@@ -718,7 +761,7 @@ Proof.
   - pose proof (good_dir_files _ G) as HF. apply Forall_app in HF. destruct HF as [HF1 HF2].
     inversion HF2 as [|? ? [_ Hu] _]; subst.
     destruct (torn_repr day no t Hok Hn Hu) as (T & HT & R).
-    exists T. split; [exact HT|]. apply dir_repr_snoc; assumption.
+    exists T. split; [exact HT|]. apply dir_repr_snoc; [exact HF1 | apply repr_last_of_repr; exact R].
 Qed.
 
 (** search by time after a crash: what the search prescribes on the directory reduced to what was
@@ -756,7 +799,126 @@ Proof.
   unfold find_max_lines. rewrite Hs. fold (rdm max).
   destruct (from_first_entry (fs ++ [cut_file day no t]) (begin_ms / 1000)) as [items|].
   - exact H.
-  - destruct H as [H1 H2]. rewrite H1, H2. reflexivity.
+  - exact H.
+Qed.
+
+
+(** * A crash between the index entry of a new second and its first line *)
+
+Lemma find_app_ : forall {A} (p : A -> bool) a b,
+  find p (a ++ b) = match find p a with Some x => Some x | None => find p b end.
+Proof.
+  intros A p a b. induction a as [|x a IH]; cbn [List.app find]; [reflexivity|].
+  destruct (p x); [reflexivity | exact IH].
+Qed.
+
+Lemma firstn_S_nth : forall {A} (l : list A) m d, (m < length l)%nat ->
+  firstn (S m) l = firstn m l ++ [nth m l d].
+Proof.
+  intros A l. induction l as [|x l IH]; intros m d H; [cbn [length] in H; lia|].
+  destruct m as [|m]; [reflexivity|].
+  change (firstn (S (S m)) (x :: l)) with (x :: firstn (S m) l).
+  change (firstn (S m) (x :: l)) with (x :: firstn m l).
+  cbn [nth List.app]. f_equal. apply IH. cbn [length] in H. lia.
+Qed.
+
+Lemma torn_ok_ok2 : forall t, torn_ok t -> torn_ok2 t.
+Proof.
+  intros t (H1 & H2 & H3 & H4 & H5 & H6 & H7).
+  repeat (split; [assumption|]). left. split; assumption.
+Qed.
+
+(** the torn last file with a dangling entry, as the search sees it *)
+Lemma torn_repr_dangling : forall day no t P,
+  (t_m t < length (t_ents t))%nat ->
+  (16 * S (t_m t) <= t_j t < 16 * S (S (t_m t)))%nat ->
+  snd (nth (t_m t) (t_ents t) (0, 0)) = N.of_nat (length (log_of (firstn (t_n t) (t_items t)))) ->
+  fst (nth (t_m t) (t_ents t) (0, 0)) < U64 -> snd (nth (t_m t) (t_ents t) (0, 0)) < U64 ->
+  nolf P -> firstn (t_k t) (log_of (t_items t)) = log_of (firstn (t_n t) (t_items t)) ++ P ->
+  Forall name_ok (t_items t) ->
+  Forall (fun e => fst e < U64 /\ snd e < U64) (firstn (t_m t) (t_ents t)) ->
+  repr_last (torn_file day no t) (cut_file day no t) (map clean_line (split_lines P [])).
+Proof.
+  intros day no t P Hm Hj Hoff Hd1 Hd2 HP EL Hn Hu.
+  destruct (firstn_idx_app (firstn (S (t_m t)) (t_ents t)) (skipn (S (t_m t)) (t_ents t)) (t_j t))
+    as (R & HR & EI).
+  { rewrite firstn_length_le by lia. exact Hj. }
+  rewrite firstn_skipn in EI. rewrite (firstn_S_nth (t_ents t) (t_m t) (0, 0) Hm) in EI.
+  remember (nth (t_m t) (t_ents t) (0, 0)) as d eqn:Ed.
+  split.
+  - intros bsec. cbn [torn_file f_idx cut_file a_ents]. rewrite EI.
+    rewrite (find_offset_idx_tail bsec (firstn (t_m t) (t_ents t) ++ [d]) R).
+    + rewrite find_app_.
+      destruct (find (fun e : N * N => bsec <=? fst e) (firstn (t_m t) (t_ents t))) as [e|] eqn:E;
+        [left; reflexivity|].
+      cbn [find]. destruct (bsec <=? fst d) eqn:Eb; [|left; reflexivity].
+      right. split; [reflexivity|]. exists (snd d). split; [reflexivity|].
+      unfold lines_from. cbn [torn_file f_log].
+      rewrite EL, Hoff, Nat2N.id, skipn_len_app by reflexivity. reflexivity.
+    + apply Forall_app. split; [exact Hu|]. constructor; [split; assumption | constructor].
+    + exact HR.
+    + rewrite (app_length (idx_of (firstn (t_m t) (t_ents t) ++ [d])) R).
+      pose proof (idx_of_length (firstn (t_m t) (t_ents t) ++ [d])). lia.
+  - intros pre post Hit. cbn [cut_file a_items] in Hit. unfold lines_from. cbn [torn_file f_log].
+    rewrite EL, Hit, Nat2N.id, log_of_app, <- app_assoc, skipn_len_app by reflexivity.
+    apply lines_log_tail; [|exact HP].
+    pose proof (Forall_firstn_ name_ok (t_n t) (t_items t) Hn) as Hn'.
+    rewrite Hit in Hn'. apply Forall_app in Hn'. tauto.
+Qed.
+
+Lemma torn_dir2 : forall fs day no t, torn_ok2 t -> Forall name_ok (t_items t) ->
+  good_dir (fs ++ [cut_file day no t]) ->
+  sorted_files (map conc fs ++ [torn_file day no t]) = map conc fs ++ [torn_file day no t] /\
+  exists T, (length T <= 1)%nat /\
+    dir_repr (map conc fs ++ [torn_file day no t]) (fs ++ [cut_file day no t]) T.
+Proof.
+  intros fs day no t (H1 & H2 & H3 & H4 & H5 & [[H6 H7]|(Hm & Hj & _ & Hoff & Hd1 & Hd2)]) Hn G.
+  - apply torn_dir; [|exact Hn | exact G]. repeat (split; [assumption|]). exact H7.
+  - split.
+    + apply (sorted_files_keys (map conc (fs ++ [cut_file day no t]))); [|exact (proj1 G)].
+      rewrite !map_app. reflexivity.
+    + pose proof (good_dir_files _ G) as HF. apply Forall_app in HF. destruct HF as [HF1 HF2].
+      inversion HF2 as [|? ? [_ Hu] _]; subst.
+      destruct (torn_log_shape_gen (t_items t) (t_n t) (t_k t) H1 H3 H4 Hn) as (P & HP & EL).
+      exists (map clean_line (split_lines P [])). split.
+      * rewrite map_length. apply split_lines_nolf_len. exact HP.
+      * apply dir_repr_snoc; [exact HF1|].
+        apply torn_repr_dangling; assumption.
+Qed.
+
+(** search by time after a crash, the index possibly one complete entry ahead of the lines *)
+Lemma c19_search_by_time_after_crash2 : forall fs day no t begin_ms end_ms res,
+  torn_ok2 t -> Forall name_ok (t_items t) ->
+  good_dir (fs ++ [cut_file day no t]) ->
+  exists extra, (length extra <= 1)%nat /\
+    find_by_time (map conc fs ++ [torn_file day no t]) begin_ms end_ms res =
+    expected_by_time (fs ++ [cut_file day no t]) (begin_ms / 1000) (end_ms / 1000) res ++ extra.
+Proof.
+  intros fs day no t begin_ms end_ms res Hok Hn G.
+  destruct (torn_dir2 fs day no t Hok Hn G) as (Hs & T & HT & D).
+  destruct (search_time_tail _ _ _ D (begin_ms / 1000) (end_ms / 1000) res (good_dir_gd _ G))
+    as (extra & HL & E).
+  exists extra. split; [lia|].
+  unfold find_by_time, expected_by_time. cbv zeta. rewrite Hs. exact E.
+Qed.
+
+(** the line-limited search after such a crash *)
+Lemma c19_search_max_lines_after_crash2 : forall fs day no t begin_ms max,
+  torn_ok2 t -> Forall name_ok (t_items t) ->
+  good_dir (fs ++ [cut_file day no t]) ->
+  exists extra, (length extra <= 1)%nat /\
+    match from_first_entry (fs ++ [cut_file day no t]) (begin_ms / 1000) with
+    | None => find_max_lines (map conc fs ++ [torn_file day no t]) begin_ms max = extra
+    | Some items => exists out, max_ok items max out /\
+                    find_max_lines (map conc fs ++ [torn_file day no t]) begin_ms max = out ++ extra
+    end.
+Proof.
+  intros fs day no t begin_ms max Hok Hn G.
+  destruct (torn_dir2 fs day no t Hok Hn G) as (Hs & T & HT & D).
+  destruct (search_max_tail _ _ _ D (begin_ms / 1000) max (good_dir_gd _ G)) as (extra & HL & H).
+  exists extra. split; [lia|].
+  unfold find_max_lines. rewrite Hs. fold (rdm max).
+  destruct (from_first_entry (fs ++ [cut_file day no t]) (begin_ms / 1000)) as [items|]; exact H.
 Qed.
 
 (** * A concrete case: the hypotheses are satisfiable and both sides agree *)
@@ -910,6 +1072,86 @@ Example ex_prefix_1 :
   find_max_lines (map conc [ex_f1; ex_f2]) 6000 7 = [] /\ from_first_entry [ex_f1; ex_f2] 6 = None.
 Proof. vm_compute. repeat split; reflexivity. Qed.
 
+(** a crash between the index entry of second 5 and its first line: 5 lines and 2 index entries
+    have their lines complete, the third entry (second 5, pointing at the end of the five lines) is
+    complete as well and 5 bytes of a fourth follow; the sixth line lacks only its line feed *)
+Definition ex_ents3 := ex_ents2 ++ [(6, ex_off ex_items2 7)].
+Definition ex_torn3 : torn :=
+  mkTorn ex_items2 ex_ents3 5 2 (length (log_of (firstn 6 ex_items2)) - 1) (16 * 3 + 5).
+(** the same with the sixth line cut after 10 bytes and the index ending with the dangling entry *)
+Definition ex_torn4 : torn :=
+  mkTorn ex_items2 ex_ents2 5 2 (length (log_of (firstn 5 ex_items2)) + 10) (16 * 3).
+
+Ltac ex_atom :=
+  match goal with
+  | |- (_ < _)%nat -> _ => intros _; ex_atom
+  | |- _ = _ -> _ =>
+      first [ intros _; vm_compute; reflexivity
+            | let H := fresh in intros H; vm_compute in H; discriminate H ]
+  | |- (_ <= _)%nat => apply Nat.leb_le; vm_compute; reflexivity
+  | |- (_ < _)%nat => apply Nat.ltb_lt; vm_compute; reflexivity
+  | |- _ => vm_compute; reflexivity
+  end.
+
+Ltac ex_torn_ok2 :=
+  unfold torn_ok2; cbn [t_items t_ents t_n t_m t_k t_j];
+  do 5 (split; [ex_atom|]); right; repeat split; ex_atom.
+
+Example ex_torn_ok3 : torn_ok2 ex_torn3.
+Proof. ex_torn_ok2. Qed.
+Example ex_torn_ok4 : torn_ok2 ex_torn4.
+Proof. ex_torn_ok2. Qed.
+(** these are not crashes in the sense of [torn_ok]: the index is a whole entry ahead *)
+Example ex_torn3_not_ok : ~ torn_ok ex_torn3.
+Proof.
+  intros (_ & _ & _ & _ & _ & [_ H] & _). cbn [t_m t_j ex_torn3] in H.
+  apply Nat.ltb_lt in H. vm_compute in H. discriminate H.
+Qed.
+
+Example ex_good_cut3 : good_dir ([ex_f1] ++ [cut_file 0 1 ex_torn3]).
+Proof. exact ex_good_cut. Qed.
+Example ex_good_cut4 : good_dir ([ex_f1] ++ [cut_file 0 1 ex_torn4]).
+Proof. exact ex_good_cut. Qed.
+
+Example ex_by_time_thm2 := fun b e res =>
+  c19_search_by_time_after_crash2 [ex_f1] 0 1 ex_torn3 b e res ex_torn_ok3 ex_names ex_good_cut3.
+Example ex_max_thm2 := fun b max =>
+  c19_search_max_lines_after_crash2 [ex_f1] 0 1 ex_torn3 b max ex_torn_ok3 ex_names ex_good_cut3.
+
+Definition ex_dir3 := map conc [ex_f1] ++ [torn_file 0 1 ex_torn3].
+Definition ex_dir4 := map conc [ex_f1] ++ [torn_file 0 1 ex_torn4].
+Definition ex_cut3 := [ex_f1] ++ [cut_file 0 1 ex_torn3].
+Definition ex_cut4 := [ex_f1] ++ [cut_file 0 1 ex_torn4].
+
+(** begin at second 5: the search starts at the dangling entry, that is at the torn line, and
+    returns it when it parses and matches; the reduced directory has nothing from second 5 on *)
+Example ex_by_time_6 :
+  expected_by_time ex_cut3 5 9 [] = [] /\
+  find_by_time ex_dir3 5000 9000 [] = expected_by_time ex_cut3 5 9 [] ++ [ex_line6] /\
+  find_by_time ex_dir3 5000 9000 ex_ra = expected_by_time ex_cut3 5 9 ex_ra ++ [] /\
+  find_by_time ex_dir4 5000 9000 [] = expected_by_time ex_cut4 5 9 [] ++ [] /\
+  find_by_time ex_dir3 6000 9000 [] = expected_by_time ex_cut3 6 9 [] ++ [].
+Proof. vm_compute. repeat split; reflexivity. Qed.
+(** begin earlier: as without the dangling entry *)
+Example ex_by_time_7 :
+  find_by_time ex_dir3 1000 9000 [] = expected_by_time ex_cut3 1 9 [] ++ [ex_line6] /\
+  find_by_time ex_dir3 2000 4999 [] = expected_by_time ex_cut3 2 4 [] ++ [] /\
+  find_by_time ex_dir4 1000 9000 [] = expected_by_time ex_cut4 1 9 [] ++ [].
+Proof. vm_compute. repeat split; reflexivity. Qed.
+(** line-limited search *)
+Example ex_max_3 :
+  from_first_entry ex_cut3 5 = None /\
+  find_max_lines ex_dir3 5000 0 = [] /\
+  find_max_lines ex_dir3 5000 3 = [ex_line6] /\
+  find_max_lines ex_dir4 5000 3 = [] /\
+  find_max_lines ex_dir3 6000 3 = [] /\
+  find_max_lines ex_dir3 2000 2 = map norm (firstn 3 (ex_behind ex_cut3 2)) ++ [] /\
+  find_max_lines ex_dir3 2000 7 = map norm (firstn 6 (ex_behind ex_cut3 2)) ++ [ex_line6].
+Proof. vm_compute. repeat split; reflexivity. Qed.
+
+
 Print Assumptions c19_find_max_lines_prefix.
 Print Assumptions c19_search_by_time_after_crash.
 Print Assumptions c19_search_max_lines_after_crash.
+Print Assumptions c19_search_by_time_after_crash2.
+Print Assumptions c19_search_max_lines_after_crash2.
